@@ -8,7 +8,7 @@ Import ListNotations.
 (* rrPicker as written: two goroutines read the same cursor value, both index slot 0, slot 1
    is skipped although two picks were made and the cursor advanced by two *)
 Lemma rr_torn_refuted_w :
-  exists sched, let '(total, ts) := run rr_step_torn sched 0%N [rr_init 1; rr_init 1] in
+  exists sched, let '(total, ts) := run rr_step_unrepaired sched 0%N [rr_init 1; rr_init 1] in
     total = 2%N /\ map rr_seen ts = [[0%N]; [0%N]] /\ ~ Permutation (all_seen ts) (consecutive 0 2).
 Proof.
   exists [0; 1; 0; 1; 0; 1]. vm_compute. repeat split.
@@ -134,11 +134,11 @@ Proof.
 Qed.
 
 Lemma rr_step_torn_inv : forall c l, rr_wf l ->
-  rr_wf (snd (rr_step_torn c l)) /\
-  ((fst (rr_step_torn c l) = c /\ rr_pending (snd (rr_step_torn c l)) = rr_pending l) \/
-   (fst (rr_step_torn c l) = N.modulo (c + 1) two64 /\ S (rr_pending (snd (rr_step_torn c l))) = rr_pending l)).
+  rr_wf (snd (rr_step_unrepaired c l)) /\
+  ((fst (rr_step_unrepaired c l) = c /\ rr_pending (snd (rr_step_unrepaired c l)) = rr_pending l) \/
+   (fst (rr_step_unrepaired c l) = N.modulo (c + 1) two64 /\ S (rr_pending (snd (rr_step_unrepaired c l))) = rr_pending l)).
 Proof.
-  intros c l W. unfold rr_step_torn, rr_pending, rr_wf in *. destruct (rr_at l) eqn:E; cbn [fst snd].
+  intros c l W. unfold rr_step_unrepaired, rr_pending, rr_wf in *. destruct (rr_at l) eqn:E; cbn [fst snd].
   - cbn. split; [destruct W as [W|W]; [discriminate | now right] | left; split; reflexivity].
   - cbn. split; [destruct W as [W|W]; [discriminate | now right] | left; split; reflexivity].
   - destruct W as [W|W]; [discriminate|]. destruct (rr_todo l) as [|[|k]] eqn:T; [lia| |]; cbn.
@@ -148,16 +148,16 @@ Proof.
 Qed.
 
 Theorem rr_torn_counter_exact_l : forall sched c ts, Forall rr_wf ts ->
-  Forall rr_wf (snd (run rr_step_torn sched c ts)) /\
-  N.modulo (fst (run rr_step_torn sched c ts) + N.of_nat (pending_sum (snd (run rr_step_torn sched c ts)))) two64
+  Forall rr_wf (snd (run rr_step_unrepaired sched c ts)) /\
+  N.modulo (fst (run rr_step_unrepaired sched c ts) + N.of_nat (pending_sum (snd (run rr_step_unrepaired sched c ts)))) two64
   = N.modulo (c + N.of_nat (pending_sum ts)) two64.
 Proof.
   induction sched as [|i sched IH]; intros c ts W; cbn [run].
   - split; [assumption|reflexivity].
   - unfold step1. destruct (nth_error ts i) as [l|] eqn:E; [|apply IH; assumption].
     assert (Wl : rr_wf l) by (eapply Forall_forall; [exact W | eapply nth_error_In; eassumption]).
-    pose proof (rr_step_torn_inv c l Wl) as [W' S]. pose proof (pending_sum_upd ts i l (snd (rr_step_torn c l)) E) as PS.
-    destruct (rr_step_torn c l) as [c1 l1]. cbn [fst snd] in *.
+    pose proof (rr_step_torn_inv c l Wl) as [W' S]. pose proof (pending_sum_upd ts i l (snd (rr_step_unrepaired c l)) E) as PS.
+    destruct (rr_step_unrepaired c l) as [c1 l1]. cbn [fst snd] in *.
     assert (W1 : Forall rr_wf (upd ts i l1)).
     { clear -W W'. revert i. induction ts as [|a ts IH]; intros [|i]; cbn; try assumption; inversion W; subst; constructor; auto. }
     destruct (IH c1 (upd ts i l1) W1) as [I1 I2]. split; [assumption|]. rewrite I2.
@@ -168,7 +168,7 @@ Qed.
 
 Example rr_torn_counter_nonvacuous :
   Forall rr_wf [rr_init 2; rr_init 1] /\ pending_sum [rr_init 2; rr_init 1] = 3 /\
-  run rr_step_torn [0; 1; 0; 1; 0; 1; 0; 0; 0] 5%N [rr_init 2; rr_init 1]
+  run rr_step_unrepaired [0; 1; 0; 1; 0; 1; 0; 0; 0] 5%N [rr_init 2; rr_init 1]
   = (8%N, [{| rr_at := RDone; rr_todo := 0; rr_reg := 7; rr_seen := [5; 7]%N |};
            {| rr_at := RDone; rr_todo := 0; rr_reg := 5; rr_seen := [5%N] |}]).
 Proof.
@@ -260,3 +260,73 @@ Example redirect_serial_nonvacuous :
                        [rd_init (bs "/x") (bs "a.example.com"); rd_init (bs "/y") (bs "b.example.org")]))
   = [Some (Ok (bs "https://a.example.com/x")); Some (Ok (bs "https://b.example.org/y"))].
 Proof. vm_compute. reflexivity. Qed.
+(* ------------------------------------------------------------------ consecutive cursor values => exact shares *)
+Lemma map_add_seq : forall a n b, map (fun i => a + i) (seq b n) = seq (a + b) n.
+Proof. intros a n. induction n as [|n IH]; intros b; cbn; [reflexivity|]. rewrite IH. f_equal. f_equal. lia. Qed.
+Lemma map_sub_seq : forall d n b, map (fun i => i - d) (seq (d + b) n) = seq b n.
+Proof.
+  intros d n. induction n as [|n IH]; intros b; cbn; [reflexivity|]. f_equal; [lia|].
+  replace (S (d + b)) with (d + S b) by lia. apply IH.
+Qed.
+Lemma count_nat_app : forall p a b, count_nat p (a ++ b) = count_nat p a + count_nat p b.
+Proof. intros p a b. induction a as [|x a IH]; cbn; [reflexivity|]. rewrite IH. lia. Qed.
+Lemma count_nat_seq : forall p n a, count_nat p (seq a n) = if (a <=? p) && (p <? a + n) then 1 else 0.
+Proof.
+  intros p n. induction n as [|n IH]; intros a; cbn [seq count_nat].
+  - destruct (Nat.leb_spec a p), (Nat.ltb_spec p (a + 0)); cbn; try reflexivity; lia.
+  - rewrite IH.
+    destruct (Nat.eqb_spec p a), (Nat.leb_spec (S a) p), (Nat.ltb_spec p (S a + n)), (Nat.leb_spec a p), (Nat.ltb_spec p (a + S n));
+      cbn; try reflexivity; lia.
+Qed.
+
+Lemma mod_piece : forall L x, 0 < L -> x < 2 * L -> x mod L = if x <? L then x else x - L.
+Proof.
+  intros L x HL Hx. destruct (x <? L) eqn:E.
+  - apply Nat.ltb_lt in E. now apply Nat.mod_small.
+  - apply Nat.ltb_ge in E. symmetry. apply (Nat.mod_unique x L 1); lia.
+Qed.
+
+Lemma one_cycle : forall L s p, s < L -> p < L -> count_nat p (map (fun i => (s + i) mod L) (seq 0 L)) = 1.
+Proof.
+  intros L s p Hs Hp.
+  replace (seq 0 L) with (seq 0 (L - s) ++ seq (L - s) s) by (rewrite <- seq_app; f_equal; lia).
+  rewrite map_app, count_nat_app.
+  rewrite (map_ext_in _ (fun i => s + i)).
+  2:{ intros i Hi. apply in_seq in Hi. rewrite mod_piece by lia. destruct (s + i <? L) eqn:E; [reflexivity|apply Nat.ltb_ge in E; lia]. }
+  rewrite (map_ext_in (fun i => (s + i) mod L) (fun i => i - (L - s))).
+  2:{ intros i Hi. apply in_seq in Hi. rewrite mod_piece by lia. destruct (s + i <? L) eqn:E; [apply Nat.ltb_lt in E; lia | lia]. }
+  rewrite map_add_seq. replace (seq (L - s) s) with (seq ((L - s) + 0) s) by (f_equal; lia). rewrite map_sub_seq.
+  rewrite !count_nat_seq.
+  destruct (Nat.leb_spec (s + 0) p), (Nat.ltb_spec p (s + 0 + (L - s))), (Nat.leb_spec 0 p), (Nat.ltb_spec p (0 + s));
+    cbn; try reflexivity; lia.
+Qed.
+
+Lemma full_cycles : forall L k s p, s < L -> p < L ->
+  count_nat p (map (fun i => (s + i) mod L) (seq 0 (k * L))) = k.
+Proof.
+  intros L k s p Hs Hp. induction k as [|k IH]; [reflexivity|].
+  cbn [Nat.mul]. rewrite seq_app, map_app, count_nat_app, one_cycle by assumption. cbn [Nat.add].
+  replace (seq L (k * L)) with (seq (L + 0) (k * L)) by (f_equal; lia). rewrite <- map_add_seq, map_map.
+  rewrite (map_ext _ (fun i => (s + i) mod L)); [rewrite IH; reflexivity|].
+  intros i. replace (s + (L + i)) with (s + i + 1 * L) by lia. apply Nat.mod_add. lia.
+Qed.
+
+(* rr_exact_shares: k full turns of the ring starting at any cursor (no uint64 wrap inside the run)
+   use every ring position exactly k times - with rr_atomic_exact: under every interleaving each
+   target receives exactly (its number of ring slots) x k of k*len lookups *)
+Theorem rr_exact_shares_l : forall len c k p, 0 < len -> (c + N.of_nat (k * len) <= two64)%N -> p < len ->
+  count_nat p (positions len (consecutive c (k * len))) = k.
+Proof.
+  intros len c k p HL Hw Hp. unfold positions, consecutive. rewrite map_map.
+  rewrite (map_ext_in _ (fun i => (N.to_nat (N.modulo c (N.of_nat len)) + i) mod len)).
+  - apply full_cycles; [|assumption].
+    rewrite N2Nat.inj_mod, Nat2N.id. apply Nat.mod_upper_bound. lia.
+  - intros i Hi. apply in_seq in Hi.
+    rewrite (N.mod_small (c + N.of_nat i) two64) by lia.
+    rewrite !N2Nat.inj_mod, N2Nat.inj_add, !Nat2N.id.
+    rewrite Nat.add_mod_idemp_l by lia. reflexivity.
+Qed.
+
+Example rr_exact_shares_nonvacuous :
+  positions 3 (consecutive 7 6) = [1; 2; 0; 1; 2; 0] /\ count_nat 2 (positions 3 (consecutive 7 (2 * 3))) = 2.
+Proof. vm_compute. split; reflexivity. Qed.
